@@ -91,7 +91,8 @@ fn main() {
         }
         "c04prog" => {
             let k: usize = args[2].parse().unwrap();
-            let p = &mc::checks::c04::selected_pub(Tier::Quick)[k];
+            let tier = Tier::parse(args.get(3).map(|s| s.as_str()).unwrap_or("quick"));
+            let p = &mc::checks::c04::selected_pub(tier)[k];
             println!("{}\n{}", p.name(), p.yml());
         }
         "leak" => {
